@@ -212,7 +212,7 @@ def r2(ctx: Ctx) -> None:
     # the discipline decided here is that of a binary heap kept with heapq; a queue kept in another way
     # (a sorted list, a key function) is a different data structure with a different invariant
     heap_ops = [w for w in ws if w.kind == "heap"]
-    sorted_ops = [w for w in ws if w.kind == "mutcall" and w.detail in ("sort", "insert")]
+    sorted_ops = [w for w in ws if w.kind == "mutcall" and w.detail in ("sort", "insert") and not w.func.name.startswith("get_")]  # (a view that reorders the queue is judged below, as a mutation)
     if not heap_ops or sorted_ops:
         g0 = (sorted_ops or ws)[0]
         ctx.unrec(g0.func, g0.node, "the priority queue is kept as a binary heap with heapq", "the queue is (also) maintained by sort() / insert() or without heapq: whether that order agrees with the comparison of orders is not decided")
